@@ -54,6 +54,8 @@ def gen(rng, tier, shape=None):
             k = rng.choice(list(cur))
             del cur[k]
             steps.append({"op": "del", "k": k})
+        elif r < 0.48 and cur:
+            steps.append({"op": "skip", "k": rng.choice(list(cur))})       # toggles @pytest.mark.skip on that test
         else:
             fl = sorted(c for c in common.CATS if rng.random() < 0.5)
             mode = rng.choice([[], [], [], ["review"], ["report"], ["disable"]])
@@ -68,6 +70,11 @@ def gen(rng, tier, shape=None):
         cur[k] = rng.choice(data)
         steps.append({"op": "set", "k": k, "data": cur[k]})
         steps.append({"op": "run", "flags": rng.choice([["disable"], ["disable"], ["report"], ["short-report"], []]), "answers": {c: False for c in common.CATS}})
+    if rng.random() < 0.3 and cur:
+        # the file takes part in the session but none of its snapshots is evaluated: its externals are still referenced
+        steps.append({"op": "run", "flags": ["create"], "answers": {c: False for c in common.CATS}})
+        steps.append({"op": "skipall"})
+        steps.append({"op": "run", "flags": rng.choice([["trim"], ["trim"], ["fix", "trim"], ["review"]]), "answers": {c: c == "trim" for c in common.CATS}})
     if not any(s["op"] == "run" for s in steps):
         steps.append({"op": "run", "flags": ["create"], "answers": {c: False for c in common.CATS}})
     return {"hash_length": hl, "steps": steps, "storage_dir": rng.choice([None, None, "snaps"])}
@@ -132,10 +139,12 @@ def run_impl(case):
         log = []
         f = d / "test_a.py"
 
+        skipped = set()
+
         def write():
-            body = "from inline_snapshot import snapshot, outsource\n" + ("from inline_snapshot import external\n" if any(a for _d, a in tests.values()) else "") + "\n"
+            body = "from inline_snapshot import snapshot, outsource\nimport pytest\n" + ("from inline_snapshot import external\n" if any(a for _d, a in tests.values()) else "") + "\n"
             for k in sorted(tests):
-                body += test_src(k, *tests[k]) + "\n"
+                body += ("@pytest.mark.skip\n" if k in skipped else "") + test_src(k, *tests[k]) + "\n"
             f.write_text(body)
 
         for st in case["steps"]:
@@ -150,6 +159,12 @@ def run_impl(case):
                     write()
             elif st["op"] == "del":
                 tests.pop(int(st["k"]), None)
+                write()
+            elif st["op"] == "skip":
+                skipped ^= {int(st["k"])}
+                write()
+            elif st["op"] == "skipall":
+                skipped |= set(tests)
                 write()
             else:
                 before_files = f.read_text()
@@ -170,7 +185,7 @@ def run_impl(case):
                     pass
                 log.append({"flags": fl, "answers": st["answers"], "rc": r["rc"], "before_store": before_store,
                             "after_store": listing(store_dir), "changed": after_files != before_files,
-                            "refs_after": refs_in(after_files), "outsourced": [tests[k][0] for k in sorted(tests)],
+                            "refs_after": refs_in(after_files), "outsourced": [tests[k][0] for k in sorted(tests) if k not in skipped],
                             "after_files": after_files, "traceback": "Traceback" in r["stderr"], "stderr": r["stderr"][-600:]})
         # white-box: prefix lookup on the final storage
         lookups = []
